@@ -1,9 +1,11 @@
 package props
 
 import (
+	"encoding/json"
 	"fmt"
 	"testing"
 
+	"github.com/Breeze0806/gobinlog/replication"
 	"pgregory.net/rapid"
 
 	"verif/gen"
@@ -38,6 +40,21 @@ func negTime(n *refenc.JNode) bool {
 
 func c14Property(rec *Recorder) func(*rapid.T) {
 	return func(rt *rapid.T) {
+		switch rapid.IntRange(0, 24).Draw(rt, "part_special") {
+		case 0:
+			parallelPart(rt, rec, "C14", []struct{ T, Real byte }{{refenc.TJSON, 0}})
+			return
+		case 1:
+			reannouncePart(rt, rec, "C14")
+			return
+		case 2, 3:
+			// a document the decoder must REJECT (an opaque value of a type it does not support, after
+			// part of the document was already rendered) is decoded first; its error is not judged,
+			// but the next valid document must be rendered correctly all the same
+			cell := refenc.LenPrefixed(poisonJSON(), 4)
+			guard(func() error { _, _, e := replication.CellBytes(cell, 0, refenc.TJSON, 4, false); return e })
+			rec.Class("after-rejected-document")
+		}
 		col := hist.Column{Type: refenc.TJSON, Len: 4}
 		doc := gen.JSONDoc(rt, limits())
 		c := CellCase{Col: col, Val: hist.Value{J: doc}, Pre: rapid.IntRange(0, 3).Draw(rt, "pre"), Post: rapid.IntRange(0, 3).Draw(rt, "post")}
@@ -79,7 +96,120 @@ func c14Property(rec *Recorder) func(*rapid.T) {
 			cellViolation(rec, c, err)
 			rt.Fatalf("C14 violation: %v", err)
 		}
+		// the caller reuses its row buffer: a different document of the SAME binary length is written over
+		// the first one in place and decoded from the same slice
+		if tw := tweakJSON(doc); tw != nil {
+			b2 := refenc.JSONBinary(tw, nil)
+			if len(b2) == len(bin) {
+				buf := refenc.LenPrefixed(bin, 4)
+				var out1, out2 []byte
+				err := guard(func() (e error) {
+					out1, _, e = replication.CellBytes(buf, 0, refenc.TJSON, 4, false)
+					if e != nil {
+						return e
+					}
+					out1 = append([]byte{}, out1...)
+					copy(buf[4:], b2)
+					out2, _, e = replication.CellBytes(buf, 0, refenc.TJSON, 4, false)
+					return e
+				})
+				rec.Class("same-length-overwrite")
+				if err == nil {
+					err = hist.CheckJSONText(out2, tw)
+				}
+				if err != nil {
+					c2 := CellSeqCase{Prev: c, Cur: CellCase{Col: col, Val: hist.Value{J: tw}}}
+					err = fmt.Errorf("second document written over the first in the caller's buffer: %v", err)
+					rec.Violation("c14reuse", c2, "", err)
+					rt.Fatalf("C14 violation: %v", err)
+				}
+			}
+		}
 	}
+}
+
+// poisonJSON is a small array [ 'left-over', 7, <opaque value of type BIT> ]: the third
+// element is of a kind the decoder documents as unsupported.
+func poisonJSON() []byte {
+	// small array: count(2) size(2) 3 value entries (type(1)+offset(2)) then values
+	str := append([]byte{9}, "left-over"...) // varlen 9 + bytes
+	opq := []byte{16, 2, 0xCA, 0xFE}         // field type BIT(16), varlen 2, two bytes
+	hdr := 4 + 3*3
+	b := make([]byte, hdr)
+	b[0] = 3
+	put := func(at, v int) { b[at], b[at+1] = byte(v), byte(v>>8) }
+	b[4], b[7], b[10] = 12, 5, 15 // string, int16 (inlined), opaque
+	put(5, hdr)
+	put(8, 7)
+	put(11, hdr+len(str))
+	b = append(append(b, str...), opq...)
+	put(2, len(b))
+	return append([]byte{2}, b...)
+}
+
+// tweakJSON returns a copy of the document in which every fixed-width scalar has another
+// value of the same width (nil if nothing could be changed).
+func tweakJSON(n *refenc.JNode) *refenc.JNode {
+	changed := false
+	var cp func(n *refenc.JNode) *refenc.JNode
+	cp = func(n *refenc.JNode) *refenc.JNode {
+		m := *n
+		m.Kids = nil
+		for _, k := range n.Kids {
+			m.Kids = append(m.Kids, cp(k))
+		}
+		switch n.K {
+		case refenc.JTrue:
+			m.K, changed = refenc.JFalse, true
+		case refenc.JFalse:
+			m.K, changed = refenc.JTrue, true
+		case refenc.JInt:
+			for _, d := range []int64{1, -1} {
+				v := n.I + d
+				if (d > 0 && v > n.I || d < 0 && v < n.I) && intClass(v) == intClass(n.I) {
+					m.I, changed = v, true
+					break
+				}
+			}
+		case refenc.JUint:
+			for _, v := range []uint64{n.U + 1, n.U - 1} {
+				if uintClass(v) == uintClass(n.U) && v != n.U && (v == n.U+1 && v > n.U || v == n.U-1 && v < n.U) {
+					m.U, changed = v, true
+					break
+				}
+			}
+		case refenc.JDouble:
+			if v := n.U ^ 1; v&0x7ff0000000000000 != 0x7ff0000000000000 {
+				m.U, changed = v, true
+			}
+		}
+		return &m
+	}
+	out := cp(n)
+	if !changed {
+		return nil
+	}
+	return out
+}
+
+func intClass(v int64) int {
+	switch {
+	case v >= -32768 && v <= 32767:
+		return 16
+	case v >= -2147483648 && v <= 2147483647:
+		return 32
+	}
+	return 64
+}
+
+func uintClass(v uint64) int {
+	switch {
+	case v <= 65535:
+		return 16
+	case v <= 4294967295:
+		return 32
+	}
+	return 64
 }
 
 func TestC14(t *testing.T) {
@@ -93,4 +223,28 @@ func TestC14(t *testing.T) {
 func FuzzC14(f *testing.F) {
 	rec := recorder("C14fuzz")
 	f.Fuzz(rapid.MakeFuzz(c14Property(rec)))
+}
+
+func init() {
+	registerReplay("c14reuse", func(raw json.RawMessage) error {
+		var c CellSeqCase
+		if err := json.Unmarshal(raw, &c); err != nil {
+			return err
+		}
+		b1 := refenc.JSONBinary(c.Prev.Val.J, nil)
+		b2 := refenc.JSONBinary(c.Cur.Val.J, nil)
+		if len(b1) != len(b2) {
+			return nil
+		}
+		buf := refenc.LenPrefixed(b1, 4)
+		if _, _, err := replication.CellBytes(buf, 0, refenc.TJSON, 4, false); err != nil {
+			return err
+		}
+		copy(buf[4:], b2)
+		out, _, err := replication.CellBytes(buf, 0, refenc.TJSON, 4, false)
+		if err != nil {
+			return err
+		}
+		return hist.CheckJSONText(out, c.Cur.Val.J)
+	})
 }
